@@ -398,7 +398,7 @@ pub fn gen_case(rng: &mut Rng) -> Case {
     // most invocations consist of inputs that all compile
     let allow_fail = rng.chance(2, 5);
     for k in 0..n {
-        let dir = *rng.pick(&["", "", "sub", "sub/deeper"]);
+        let dir = *rng.pick(&["", "", "sub", "sub/deeper", ".", "./sub"]);
         let join = |d: &str, f: &str| if d.is_empty() { f.to_string() } else { format!("{d}/{f}") };
         let mut expect = None;
         match if allow_fail { rng.below(12) } else { 5 + rng.below(7) } {
